@@ -1,0 +1,12 @@
+//go:build verif
+
+// Contracts checked by /verif/govc (comment-only; compiled only with -tags verif).
+package utils
+
+// AppendRefs(s, v) returns s followed by pointers to the elements of v, in order.
+// (The result is modelled as a fresh slice; callers under contract do not rely on aliasing with s.)
+//@ contract func AppendRefs
+//@   assigns
+//@   ensures fresh(result) && len(result) == len(s) + len(v)
+//@   ensures forall k int :: 0 <= k && k < len(s) ==> result[k] == old(s[k])
+//@   ensures forall k int :: 0 <= k && k < len(v) ==> result[len(s) + k] == iface(&v[k])
